@@ -222,7 +222,7 @@ PROPS["C19"] = {
 _GEN_RULE = ("programs: (a) systematic single-feature cells - every binary operator x every pair of the 10 numeric types x boundary operands (min, min+1, -1, 0, 1, 2, max-1, max; "
              "reals 0, +-1, near-max, tiny; sampled in quick, complete in thorough), unary minus, FOR over every integer control type at the type limits incl. step 0, CASE on every integer "
              "selector type, assignment / array element / struct field / function parameter / return / FB input / FB output for every (declared type, assignable source type) pair, and "
-             "12 feature-switch cells (case variation, untyped literals, RETURN in PROGRAM, fb() without arguments, subrange overflow, enum CASE, negative exponent, recursion, TIME, bit "
+             "13 feature-switch cells (EN/ENO calls from program, function and FB bodies, case variation, untyped literals, RETURN in PROGRAM, fb() without arguments, subrange overflow, enum CASE, negative exponent, recursion, TIME, bit "
              "ops, strings); (b) every .st file under /repo that builds stand-alone; (c) seeded type-directed random programs (<= 3 functions, <= 3 FB types with state, arrays, structs, "
              "IF/CASE/FOR/WHILE/REPEAT/EXIT/CONTINUE/RETURN, short-circuit guard patterns, FOR bounds over variables the body changes, loops ending at the type limit, direct widening "
              "assignments; typed literals and exact-case identifiers unless a feature switch says otherwise), 3-5 cycles with boundary-biased inputs and clock steps. distinct = (feature "
@@ -252,7 +252,7 @@ PROPS["C02"] = {
     "quick": {"shards": 8, "budget_s": 30, "watchdog_s": 900},
     "thorough": {"shards": 16, "budget_s": 420, "watchdog_s": 3600, "release_pass": {"shards": 16, "budget_s": 90}},
     "floor": {"quick": 5000, "thorough": 50000},
-    "require_counters": {"quick": {"variables_compared": 1000000, "faults_agreed": 3000, "cycles_compared": 20000, "semantic_cells_checked": 10, "semantic_cell_values_compared": 55}, "thorough": {"variables_compared": 20000000, "evaluations_under_release_semantics": 5000}},
+    "require_counters": {"quick": {"variables_compared": 1000000, "faults_agreed": 3000, "cycles_compared": 20000, "semantic_cells_checked": 11, "semantic_cell_values_compared": 68}, "thorough": {"variables_compared": 20000000, "evaluations_under_release_semantics": 5000}},
     "rule": "seeded type-directed random programs of the C02 core grammar (see DESIGN C02): elementary-type expressions over one signedness family per operation, assignments incl. implicit "
             "widening, IF/CASE/FOR/WHILE/REPEAT/EXIT/CONTINUE/RETURN, arrays, structs, user functions (positional and named calls), FB instances with state and omitted inputs, "
             "short-circuit guard patterns, FOR bounds evaluated once, loops ending at the type limit; 3-5 cycles of boundary-biased inputs. distinct = (feature set, program hash bucket, "
@@ -262,8 +262,8 @@ PROPS["C02"] = {
                   "before each iteration, by-value inputs, persistent FB state. After every cycle every Main variable, array element, struct field and FB member is compared by declared type "
                   "(numeric value / bit pattern), and the fault class must agree.",
     "level_note": "Excluded from the generated C02 grammar (still run by C01): mixed signedness, conversions and standard functions, untyped literals, TIME arithmetic, strings. '**', "
-                  "operator precedence/associativity, VAR_IN_OUT (plain, through array elements / struct fields / nested FBs, and aliased), by-value inputs, default values of omitted inputs, initial values of FB inputs/outputs and output bindings (to variables, array elements, struct fields) are covered by 10 "
-                  "hand-derived semantic cells (harness/src/engines/c02cells.rs, 55 expected values worked out from IEC Table 71 and the by-reference rule) that run in every tier.",
+                  "operator precedence/associativity, VAR_IN_OUT (plain, through array elements / struct fields / nested FBs, and aliased), by-value inputs, default values of omitted inputs, initial values of FB inputs/outputs, EN/ENO gating of functions and FBs (also from nested callers) and output bindings (to variables, array elements, struct fields) are covered by 11 "
+                  "hand-derived semantic cells (harness/src/engines/c02cells.rs, 68 expected values worked out from IEC Table 71 and the by-reference rule) that run in every tier.",
     "assumptions": ["the reference evaluator is the trusted base", "value of a FOR control variable after the loop is not compared (re-assigned by the generated program)"],
     "design_ref": "DESIGN.md section 3, C02",
 }
